@@ -69,8 +69,13 @@ Definition percentile (l : list Q) (p : Q) : Q :=
   (a + frac * (b - a))%Q.
 Definition qmedian (l : list Q) : Q := percentile l 50.
 Definition qmean (l : list Q) : Q := (fold_right Qplus 0 l / inject_Z (Z.of_nat (length l)))%Q.
-(** np.isclose(x, 0) with the default tolerances: |x| <= 1e-8 *)
-Definition isclose0 (x : Q) : bool := Qle_bool (Qabs x) (1 # 100000000).
+(** the zero tests of stats.py: a MAD is replaced when it is exactly zero ([mad == 0]), and a
+    scale counts as zero for the Z-scores when it is at most float32's smallest normal number
+    (2^-126) times the largest deviation ([scale <= tiny]). *)
+Definition is_zero (x : Q) : bool := Qeq_bool x 0.
+Definition float32_tiny : Q := 1 # 85070591730234615865843651857942052864.
+Definition qmaxl (l : list Q) : Q := fold_right (fun x m => if Qle_bool x m then m else x) 0%Q l.
+Definition zero_scale (scale maxdev : Q) : bool := Qle_bool scale (float32_tiny * maxdev).
 
 (** the float64 constants of stats.py, as exact rationals of the doubles *)
 Definition norm_iqr : Q := 6075263575296585 # 4503599627370496.      (* 1.3489795003921634 *)
@@ -84,13 +89,14 @@ Definition zscore_iqr_exec (n : Z) (a : qvec) : qvec :=
   let l := vlist n a in
   let loc := qmedian l in
   let scale := ((percentile l 75 - percentile l 25) / norm_iqr)%Q in
-  let scale := if isclose0 scale then 1%Q else scale in
+  let maxdev := qmaxl (map (fun x => Qabs (x - loc)) l) in
+  let scale := if zero_scale scale maxdev then 1%Q else scale in
   fun c => ((a c - loc) / scale)%Q.
 
 (** stats.estimate_zscore(a, scale_method="doublemad") *)
 Definition side_scale (devs : list Q) : Q :=
   let m := (qmedian devs / norm_mad)%Q in
-  if isclose0 m then (qmean devs / norm_aad)%Q else m.
+  if is_zero m then (qmean devs / norm_aad)%Q else m.
 Definition zscore_doublemad_exec (n : Z) (a : qvec) : qvec :=
   let l := vlist n a in
   let loc := qmedian l in
@@ -98,8 +104,10 @@ Definition zscore_doublemad_exec (n : Z) (a : qvec) : qvec :=
   let right := map (fun x => Qabs (x - loc)) (filter (fun x => Qle_bool loc x) l) in
   let ml := side_scale left in
   let mr := side_scale right in
-  fun c => let scale := if negb (Qle_bool loc (a c)) then ml else mr in
-           let scale := if isclose0 scale then 1%Q else scale in
+  let maxdev := qmaxl (map (fun x => Qabs (x - loc)) l) in
+  fun c => let scale := if negb (Qle_bool loc (a c)) then ml
+                        else if negb (Qle_bool (a c) loc) then mr else ((1 # 2) * (ml + mr))%Q in
+           let scale := if zero_scale scale maxdev then 1%Q else scale in
            ((a c - loc) / scale)%Q.
 
 (** ** a small family of custom functions, mirrored in Python by the harness *)
